@@ -28,6 +28,7 @@ VarVecs(lazy) == {[kind |-> "updvar", asn4 |-> TRUE, var |-> v, u |-> u] : v \in
            \cup {[kind |-> "updvar", asn4 |-> TRUE, var |-> Canon, u |-> [u EXCEPT !.attrs = Reverse(u.attrs)]] : u \in Many(0)}
            \cup {[kind |-> "updvar", asn4 |-> TRUE, var |-> Canon, u |-> [u EXCEPT !.attrs = Rotate(u.attrs)]] : u \in Many(0)}
 CorVecs(lazy) == {[kind |-> "cor", asn4 |-> TRUE, var |-> Canon, u |-> c] : c \in Corruptions}
+                 \cup {[kind |-> "cor", asn4 |-> FALSE, var |-> Canon, u |-> c] : c \in Corruptions2}
 \* C15: per list kind, single elements of every width the format allows (element = its octets)
 El(kind, o) == [kind |-> "elem", list |-> kind, o |-> o]
 ElemVecs(lazy) ==
